@@ -12,7 +12,7 @@ ERROR awkward_IndexedArray_overlay_mask(
   int64_t length) {
   for (int64_t i = 0;  i < length;  i++) {
     M m = mask[i];
-    toindex[i] = (m ? -1 : fromindex[i]);
+    toindex[i] = (m ? (TO)(-1) : (TO)fromindex[i]);
   }
   return success();
 }
